@@ -14,7 +14,7 @@ import ast
 
 from ..index import AnchorMissing, Unrecognised
 from ..prov import Analyzer, F, C, U
-from ..astutil import u, body_walk, func_calls, walk_local, local_env
+from ..astutil import linear_body, u, body_walk, func_calls, walk_local, local_env
 from .. import sym
 
 EXPLANATION = ("Static ownership analysis of the whole package: a flow-sensitive provenance analysis (fresh / copy-on-write / alias of parameter / alias of "
@@ -321,7 +321,7 @@ def r6_memoised_results(ctx):
     for gi in ix.all_functions():
         if isinstance(gi.node, ast.Lambda) or not any(nm in gi.module.source for nm in names):
             continue
-        found = [x for st in gi.node.body for x in ast.walk(st) if (isinstance(x, ast.Attribute) and x.attr in names and isinstance(x.ctx, ast.Load)) or
+        found = [x for st in linear_body(gi.node) for x in ast.walk(st) if (isinstance(x, ast.Attribute) and x.attr in names and isinstance(x.ctx, ast.Load)) or
                  (isinstance(x, ast.Name) and x.id in names and isinstance(x.ctx, ast.Load))]
         if not found:
             continue
